@@ -14,7 +14,7 @@ def digest(s: str) -> str:
     return hashlib.sha256(s.encode("utf-8", "surrogatepass")).hexdigest()[:24]
 
 
-def render_case(case) -> dict:
+def render_case(case, flip: bool = False) -> dict:
     import htmltools as h
     from hv.build import attr_value, build
 
@@ -68,7 +68,31 @@ def render_case(case) -> dict:
     for p in case.get("payloads", []):
         hc.append(h.head_content(*[build(x) for x in p]).name)
     out["headc_names"] = hc
-    out["css"] = str(h.css(**{k: v for k, v in case.get("css", [])}))
+    # the same keywords with numerically equal values of the other type (1 <-> 1.0); which of the two calls comes
+    # first differs from child to child, the answers must not
+    kw_css = {k: v for k, v in case.get("css", [])}
+    alt_css = {k: (float(v) if type(v) is int else (int(v) if type(v) is float and v == int(v) else v)) for k, v in kw_css.items()}
+    if flip:
+        out["css_alt"] = str(h.css(**alt_css))
+        out["css"] = str(h.css(**kw_css))
+    else:
+        out["css"] = str(h.css(**kw_css))
+        out["css_alt"] = str(h.css(**alt_css))
+    # one text-document object rendered with several argument combinations in a row must answer like fresh objects do
+    combos = [("lib", True), ("lib", False), (None, True), ("lib", True)]
+    text = "<head>@@</head>" + s
+    used = h.HTMLTextDocument(text, deps_replace_pattern="@@")
+    hist = []
+    for lp, iv in combos:
+        a_ = used.render(lib_prefix=lp, include_version=iv)["html"]
+        b_ = h.HTMLTextDocument(text, deps_replace_pattern="@@").render(lib_prefix=lp, include_version=iv)["html"]
+        hist.append(a_ == b_)
+    used_doc = h.HTMLDocument(*[build(x) for x in case["roots"]], **kw)
+    for lp, iv in combos:
+        a_ = used_doc.render(lib_prefix=lp, include_version=iv)["html"]
+        b_ = h.HTMLDocument(*[build(x) for x in case["roots"]], **kw).render(lib_prefix=lp, include_version=iv)["html"]
+        hist.append(a_ == b_)
+    out["arg_history_ok"] = all(hist)
     return out
 
 
@@ -85,8 +109,9 @@ def main() -> int:
     repeats = [i for k, i in enumerate(order) if k % 3 == 0]
     results = {}
     mismatches = []
+    flips = {i: int(hashlib.sha256(f"flip:{order_seed}:{i}".encode()).hexdigest(), 16) % 2 == 1 for i in range(n)}
     for i in order + repeats:
-        res = render_case(battery[i])
+        res = render_case(battery[i], flips[i])
         if str(i) in results and results[str(i)] != res:
             mismatches.append(i)
         results[str(i)] = res
